@@ -171,15 +171,14 @@ func vfAgreement(cfg vfCfg, p *vfPair, resumed bool) []string {
 	// peer certificate chains
 	isPSK := cfg.Suite.Auth == "psk" || cfg.Suite.Auth == "ecdhepsk"
 	if !isPSK && !resumed {
-		pki := vfGetPKI()
-		want := pki.Leaf(cfg.CertKind, "server").Certificate
+		want := cfg.Chain("server").Certificate
 		if !vfChainEqual(cs.PeerCerts, want) {
 			bad = append(bad, fmt.Sprintf("client's view of the server chain has %d certs, server presented %d (or bytes differ)",
 				len(cs.PeerCerts), len(want)))
 		}
 		var wantC [][]byte
 		if cfg.ClientCert && cfg.ClientAuth != NoClientCert {
-			wantC = pki.Leaf(cfg.CertKind, "client").Certificate
+			wantC = cfg.Chain("client").Certificate
 		}
 		if !vfChainEqual(ss.PeerCerts, wantC) {
 			bad = append(bad, fmt.Sprintf("server's view of the client chain has %d certs, client presented %d (or bytes differ)",
